@@ -325,14 +325,20 @@ func (g *gen) sessionScenario(idx int) {
 			}
 			ne := g.r.Intn(4)
 			var prepares []*hreq
+			var texts []string
+			named := false
 			for e := 0; e < ne; e++ {
-				nv := g.r.Intn(3)
+				nv := g.r.Intn(4)
 				stmt := fmt.Sprintf("INSERT INTO t%s_%d (a) VALUES (%s)", uniq, e, strings.TrimSuffix(strings.Repeat("?,", nv), ","))
 				vs := g.apiValues(v, nv, gap)
 				for i := range vs {
-					vs[i].name = nil // named values are refused in batches
+					vs[i].name = nil
 				}
-				b.Query(stmt, bindArgs(vs)...)
+				// every positional / named pattern over the values of an entry (v3+: to be refused, CASSANDRA-10246)
+				if v >= 3 && g.r.Intn(3) == 0 && g.namePattern(vs) != 0 {
+					named = true
+				}
+				texts = append(texts, stmt)
 				if nv > 0 {
 					prepares = append(prepares, &hreq{v: v, kind: "prepare", stmt: []byte(stmt), ks: curKs, tracing: h.tracing})
 					h.stmts = append(h.stmts, bstmt{id: preparedID(stmt), values: vs})
@@ -340,7 +346,50 @@ func (g *gen) sessionScenario(idx int) {
 					h.stmts = append(h.stmts, bstmt{stmt: []byte(stmt)})
 				}
 			}
-			if err := sess.ExecuteBatch(b); err != nil {
+			before := peer.count()
+			err := sess.ExecuteBatch(apiBatch(sess, h, texts))
+			// what reached the peer: the PREPAREs issued before a refusal, and the BATCH frame if one went out
+			var sentFrame []byte
+			nprep := 0
+			for _, f := range peer.since(before) {
+				switch frameOp(v, f) {
+				case 0x09:
+					nprep++
+				case 0x0D:
+					sentFrame = f
+				}
+			}
+			if sentFrame != nil {
+				h.stream = streamOf(v, sentFrame)
+				if m := h.theMap(); len(*m) > 1 {
+					if keys, ok := mapOrder(h, sentFrame); ok {
+						reorder(m, keys)
+					}
+				}
+			}
+			outcome := "refused"
+			if sentFrame != nil {
+				outcome = vh.Hex(sentFrame)
+			}
+			pat := "positional"
+			if named {
+				pat = "named"
+			}
+			g.out.Case(soutLine(outcome, texts, h), soutVerdict(h, sentFrame != nil),
+				fmt.Sprintf("sout/v%d/%s/%s", v, pat, map[bool]string{true: "sent", false: "refused"}[sentFrame != nil]), true)
+			if sentFrame == nil {
+				if err == nil || !named {
+					g.out.Case(fmt.Sprintf("sess %d batch %d", idx, qi), fmt.Sprintf("err:no-batch-frame:%v", err), class+"/batch-error", false)
+					sess.Close()
+					return
+				}
+				if nprep > len(prepares) {
+					nprep = len(prepares)
+				}
+				want = append(want, prepares[:nprep]...)
+				continue
+			}
+			if err != nil {
 				g.out.Case(fmt.Sprintf("sess %d batch %d", idx, qi), "err:"+strings.ReplaceAll(err.Error(), "\n", " "), class+"/batch-error", false)
 				sess.Close()
 				return
